@@ -42,6 +42,11 @@ from engine.pyvc import driver, core
 from engine.pyvc.core import Dyn, Ref, R, B, I, Ext, Unknown, Unsupported
 from contracts.py.extern_cvxopt import LIB as L
 
+# texts of obligations that were refuted because the code is not of the
+# documented FORM (the goal was the constant false: no counter-model), as
+# opposed to a condition that z3 refuted with values
+FORM_REFUTED = set()
+
 Z = z3.IntVal
 
 
@@ -854,6 +859,8 @@ def run_partition(which, timeout_ms=10000):
         r = ex.check(pc, [z3.Not(goal)], timeout=timeout_ms)
         st_ = 'proved' if r == z3.unsat else ('refuted' if r == z3.sat
                                               else 'undecided')
+        if st_ == 'refuted' and z3.is_false(z3.simplify(goal)):
+            FORM_REFUTED.add(text)
         add(kind, st_, text, line)
     return obs
 
@@ -1208,6 +1215,8 @@ def run_mmap_pwl(timeout_ms=10000):
         r = ex.check(pc, [z3.Not(goal)], timeout=timeout_ms)
         st_ = 'proved' if r == z3.unsat else ('refuted' if r == z3.sat
                                               else 'undecided')
+        if st_ == 'refuted' and z3.is_false(z3.simplify(goal)):
+            FORM_REFUTED.add(text)
         if kind == 'covered' and st_ != 'proved':
             st_ = 'undecided'
         add(kind, st_, text, line)
